@@ -397,7 +397,11 @@ class AsyncInotifyWrapper:
                     # so we can check for it when the directory reappears.
                     watch = self.watches.get(path)
                     if watch is not None:
-                        self.inotify.rm_watch(watch)
+                        # The kernel drops the watch by itself when the directory is removed;
+                        # after `mv d tmp && rmdir tmp` that has already happened
+                        # when the MOVED_FROM event is handled, and rm_watch fails with EINVAL.
+                        with contextlib.suppress(OSError):
+                            self.inotify.rm_watch(watch)
                         self.watches[path] = None
                         self.change_queue.put_nowait((Change.DELETED_PARENT, path))
                     # The directory itself can be a match of a glob pattern (e.g. "data/*/").
